@@ -186,6 +186,7 @@ package server
 //@ attr blocks
 //@ assigns errResp(r).StatusCode, errResp(r).TemplateArguments, @writerFrame
 //@ ensures[C07,C08] health_check: old(s.pauseController.State) != PauseStateRunning && old(r.Method) == "GET" && old(r.URL.Path) == old(s.targetOptions.HealthCheckConfig.Path) ==> result && emitted(WriteHeader(w, 200)) && none(ErrResp) && none(Gate) && now == old(now)
+//@ ensures[C07,C08] only_get_on_the_health_path_is_exempt: !(old(r.Method) == "GET" && old(r.URL.Path) == old(s.targetOptions.HealthCheckConfig.Path)) ==> count(Gate(_, _, _, _)) == 1 && none(WriteHeader)
 //@ ensures[C07] running: emitted(Gate(_, PauseStateRunning, _, _)) ==> !result
 //@ ensures[C08] stopped: emitted(Gate(_, PauseStateStopped, _, _)) ==> result && emitted(ErrResp(w, 503, _))
 //@ ensures[C08] stop_message: old(hasErrResp(r)) && emitted(ErrResp(w, 503, _)) ==> emitted(Gate(_, _, PauseWaitActionStopped, unbox(errResp(r).TemplateArguments, `struct{Message string}`).Message))
@@ -389,7 +390,7 @@ package server
 //@ assigns t.state, everHealthy(t), cancelled, closed
 //@ ensures[C03,C17] bounded_by_drain_timeout: now <= old(now) + max(timeout, 0)
 //@ ensures[C03] every_request_of_the_snapshot_cancelled: old(t.state) != TargetStateDraining ==> forall k `*net/http.Request` :: old(haskey(t.inflight, k)) ==> cancelled(old(t.inflight[k]).cancel)
-//@ ensures[C03] cut_off_only_at_deadline: old(t.state) != TargetStateDraining ==> (forall k `*net/http.Request` :: old(haskey(t.inflight, k)) ==> reqDone(k)) || now >= old(now) + max(timeout, 0)
+//@ ensures[C03,C02] cut_off_only_at_deadline: old(t.state) != TargetStateDraining ==> (forall k `*net/http.Request` :: old(haskey(t.inflight, k)) ==> reqDone(k)) || now >= old(now) + max(timeout, 0)
 //@ ensures[C03] overlapping_drain_returns_at_once: old(t.state) == TargetStateDraining ==> now == old(now)
 //@ ensures[C18] lock_free: !held(t.inflightLock)
 //@ emits DrainTarget(t, timeout)
@@ -537,11 +538,12 @@ package server
 //@ requires s != nil && r.services != nil && s.active != nil && s.pauseController != nil
 //@ attr blocks
 //@ assigns Router.services, ServiceMap.requestServiceMap, mapsof(ServiceMap.services), Service.options, `os.File`.content
-//@ may_emit Snapshot, SetService, RebuildTable, ListServices, CreateTemp, JsonEncode, FileClose, FsRename, FileRemove, MarshalService, FsTruncate
+//@ may_emit Snapshot, SetService, CheckAvail, RebuildTable, ListServices, CreateTemp, JsonEncode, FileClose, FsRename, FileRemove, MarshalService, FsTruncate
 //@ emits Install(r, s) when err == nil
 //@ ensures[C05] conflicting_pair_rejected: err != nil ==> err == ErrorHostInUse && none(SetService)
 //@ ensures[C05,C02] installed_in_one_critical_section: err == nil ==> count(SetService(_, _)) == 1 && emitted(SetService(_, s)) && count(Lock(r, lockid("server.Router.serviceLock"))) == 1 && first(Lock(r, lockid("server.Router.serviceLock")), SetService(_, _)) && first(SetService(_, _), Unlock(r, lockid("server.Router.serviceLock")))
-//@ ensures[C12] snapshot_follows_the_change: last_is(Snapshot(r)) && first(Unlock(r, lockid("server.Router.serviceLock")), Snapshot(r))
+//@ ensures[C05] checked_and_claimed_under_one_lock: count(CheckAvail(_, _)) == 1 && emitted(CheckAvail(_, s.name)) && first(Lock(r, lockid("server.Router.serviceLock")), CheckAvail(_, _)) && first(CheckAvail(_, _), Unlock(r, lockid("server.Router.serviceLock"))) && (err == nil ==> first(CheckAvail(_, _), SetService(_, _)))
+//@ ensures[C12,C11] snapshot_follows_the_change: last_is(Snapshot(r)) && first(Unlock(r, lockid("server.Router.serviceLock")), Snapshot(r))
 //@ ensures[C18] lock_free: !held(r.serviceLock)
 //@ ensures[C17] no_timed_wait: now == old(now)
 
@@ -945,6 +947,7 @@ package server
 //@ ensures[C11,C16] reinitialised: err == nil ==> (!isnil(s.certManager)) == s.options.TLSEnabled && !isnil(s.middleware)
 
 //@ func (*server.ServiceMap).CheckAvailability
+//@ emits CheckAvail(m, name)
 //@ requires tableWF(m)
 //@ assigns nothing
 //@ ensures[C05] free_means_no_other_owner: result == nil ==> forall hi int, pi int :: 0 <= hi && hi < len(options.Hosts) && 0 <= pi && pi < len(options.PathPrefixes) ==> !ownedByOther(m, options.Hosts[hi], options.PathPrefixes[pi], name)
@@ -1022,7 +1025,7 @@ package server
 //@ assigns Service.rolloutController, `os.File`.content
 //@ may_emit Snapshot, RolloutSplit, ListServices, CreateTemp, JsonEncode, FileClose, FsRename, FileRemove, MarshalService, FsTruncate
 //@ ensures[C06,C10] unknown_service_rejected: none(RolloutSplit) ==> err == ErrorServiceNotFound
-//@ ensures[C12] snapshot_taken: last_is(Snapshot(r))
+//@ ensures[C12,C11] snapshot_taken: last_is(Snapshot(r))
 //@ ensures[C17] returns_without_waiting: now == old(now)
 
 //@ func (*server.Router).StopRollout
@@ -1030,7 +1033,7 @@ package server
 //@ attr blocks
 //@ assigns Service.rolloutController, `os.File`.content
 //@ may_emit Snapshot, RolloutSplit, ListServices, CreateTemp, JsonEncode, FileClose, FsRename, FileRemove, MarshalService, FsTruncate
-//@ ensures[C12] snapshot_taken: last_is(Snapshot(r))
+//@ ensures[C12,C11] snapshot_taken: last_is(Snapshot(r))
 //@ ensures[C17] returns_without_waiting: now == old(now)
 
 //@ func (*server.Router).PauseService
@@ -1041,7 +1044,7 @@ package server
 //@ ensures[C06] unknown_service_rejected: none(PauseSvc) ==> err == ErrorServiceNotFound
 //@ ensures[C17] timeouts_passed_in_position: all(PauseSvc, $1 == drainTimeout && $2 == pauseTimeout)
 //@ ensures[C17] bounded_by_drain_timeout: now <= old(now) + max(drainTimeout, 0)
-//@ ensures[C12] snapshot_taken: last_is(Snapshot(r))
+//@ ensures[C12,C11] snapshot_taken: last_is(Snapshot(r))
 
 //@ func (*server.Router).StopService
 //@ requires r.services != nil
@@ -1051,7 +1054,7 @@ package server
 //@ ensures[C06] unknown_service_rejected: none(StopSvc) ==> err == ErrorServiceNotFound
 //@ ensures[C17,C08] arguments_passed_in_position: all(StopSvc, $1 == drainTimeout && $2 == message)
 //@ ensures[C17] bounded_by_drain_timeout: now <= old(now) + max(drainTimeout, 0)
-//@ ensures[C12] snapshot_taken: last_is(Snapshot(r))
+//@ ensures[C12,C11] snapshot_taken: last_is(Snapshot(r))
 
 //@ func (*server.Router).ResumeService
 //@ requires r.services != nil
@@ -1060,7 +1063,7 @@ package server
 //@ may_emit *
 //@ ensures[C06] unknown_service_rejected: none(ResumeSvc) ==> err == ErrorServiceNotFound
 //@ ensures[C17] returns_without_waiting: now == old(now)
-//@ ensures[C12] snapshot_taken: last_is(Snapshot(r))
+//@ ensures[C12,C11] snapshot_taken: last_is(Snapshot(r))
 
 //@ func (*server.Router).RemoveService
 //@ requires r.services != nil
@@ -1070,5 +1073,5 @@ package server
 //@ ensures[C05,C17] probes_stopped_then_pairs_released: err == nil ==> first(DisposeService(_), RemoveService(_, name)) && count(RemoveService(_, _)) == 1
 //@ ensures[C06] unknown_service_rejected: err != nil ==> err == ErrorServiceNotFound && none(RemoveService) && none(DisposeService)
 //@ ensures[C17] returns_without_waiting: now == old(now)
-//@ ensures[C12] snapshot_taken: last_is(Snapshot(r))
+//@ ensures[C12,C11] snapshot_taken: last_is(Snapshot(r))
 //@ ensures[C18] lock_free: !held(r.serviceLock)
